@@ -413,4 +413,9 @@ VARIANTS += [
         '    prefix = ""\n    if version == 3.0:\n        prefix = "CVSS:3.0/"\n    elif version == 3.1:\n        prefix = "CVSS:3.1/"\n    elif version == 4.0:\n        prefix = "CVSS:4.0/"\n    return prefix + "/".join(vector)',
         "silent",
     ),
+    # ---------------------------------------------------------------- round 4: sentinel iterators, generators
+    V("c16-iter-sentinel-empty-is-nd", "C16", INT, '        while True:\n            print(METRICS_ABBREVIATIONS[metric] + ":", end=" ")\n            print("/".join(values), end=" ")\n            input_value = string_input().strip().upper()\n            if not input_value:\n                if version == 2:\n                    input_value = "ND"\n                else:\n                    input_value = "X"\n            # Match case-insensitively, but keep the spelling used by the specification\n            # (e.g. "Clear", "Green", "Amber", "Red" of the CVSS4 Provider Urgency metric).\n            matching = [value for value in values if value.upper() == input_value]\n            if matching:\n                vector.append(metric + ":" + matching[0])\n                break\n', '        def prompt():\n            print(METRICS_ABBREVIATIONS[metric] + ":", end=" ")\n            print("/".join(values), end=" ")\n            return string_input().strip().upper()\n\n        for input_value in iter(prompt, ""):\n            matching = [value for value in values if value.upper() == input_value]\n            if matching:\n                break\n        else:\n            matching = ["ND" if version == 2 else "X"]\n        vector.append(metric + ":" + matching[0])\n', rule="C16.semantic"),
+    V("n4-interactive-iter-sentinel", ALL, INT, '        while True:\n            print(METRICS_ABBREVIATIONS[metric] + ":", end=" ")\n            print("/".join(values), end=" ")\n            input_value = string_input().strip().upper()\n            if not input_value:\n                if version == 2:\n                    input_value = "ND"\n                else:\n                    input_value = "X"\n            # Match case-insensitively, but keep the spelling used by the specification\n            # (e.g. "Clear", "Green", "Amber", "Red" of the CVSS4 Provider Urgency metric).\n            matching = [value for value in values if value.upper() == input_value]\n            if matching:\n                vector.append(metric + ":" + matching[0])\n                break\n', '        def prompt():\n            print(METRICS_ABBREVIATIONS[metric] + ":", end=" ")\n            print("/".join(values), end=" ")\n            answer = string_input().strip().upper()\n            if not answer:\n                answer = "ND" if version == 2 else "X"\n            return answer\n\n        for input_value in iter(prompt, None):\n            matching = [value for value in values if value.upper() == input_value]\n            if matching:\n                break\n        vector.append(metric + ":" + matching[0])\n', "silent"),
+    V2("c16-first-try-then-retry-no-nd", "C16", [(INT, 'def ask_interactively(version=3.1, all_metrics=False, no_colors=False):', 'def read_answer(prompt):\n    print(prompt, end="")\n    return string_input().strip().upper()\n\n\ndef ask_interactively(version=3.1, all_metrics=False, no_colors=False):'), (INT, '        # Ask for input\n        while True:\n            print(METRICS_ABBREVIATIONS[metric] + ":", end=" ")\n            print("/".join(values), end=" ")\n            input_value = string_input().strip().upper()\n            if not input_value:\n                if version == 2:\n                    input_value = "ND"\n                else:\n                    input_value = "X"\n            # Match case-insensitively, but keep the spelling used by the specification\n            # (e.g. "Clear", "Green", "Amber", "Red" of the CVSS4 Provider Urgency metric).\n            matching = [value for value in values if value.upper() == input_value]\n            if matching:\n                vector.append(metric + ":" + matching[0])\n                break\n', '        not_defined = "ND" if version == 2 else "X"\n        prompt = METRICS_ABBREVIATIONS[metric] + ": " + "/".join(values) + " "\n        input_value = read_answer(prompt) or not_defined\n        matching = [value for value in values if value.upper() == input_value]\n        while not matching:\n            input_value = read_answer(prompt)\n            matching = [value for value in values if value.upper() == input_value]\n        vector.append(metric + ":" + matching[0])\n')], rule="C16.semantic"),
+    V2("n4-interactive-first-try-then-retry", ["C16", "C08", "C17", "C20", "C19"], [(INT, 'def ask_interactively(version=3.1, all_metrics=False, no_colors=False):', 'def read_answer(prompt):\n    print(prompt, end="")\n    return string_input().strip().upper()\n\n\ndef ask_interactively(version=3.1, all_metrics=False, no_colors=False):'), (INT, '        # Ask for input\n        while True:\n            print(METRICS_ABBREVIATIONS[metric] + ":", end=" ")\n            print("/".join(values), end=" ")\n            input_value = string_input().strip().upper()\n            if not input_value:\n                if version == 2:\n                    input_value = "ND"\n                else:\n                    input_value = "X"\n            # Match case-insensitively, but keep the spelling used by the specification\n            # (e.g. "Clear", "Green", "Amber", "Red" of the CVSS4 Provider Urgency metric).\n            matching = [value for value in values if value.upper() == input_value]\n            if matching:\n                vector.append(metric + ":" + matching[0])\n                break\n', '        not_defined = "ND" if version == 2 else "X"\n        prompt = METRICS_ABBREVIATIONS[metric] + ": " + "/".join(values) + " "\n        input_value = read_answer(prompt) or not_defined\n        matching = [value for value in values if value.upper() == input_value]\n        while not matching:\n            input_value = read_answer(prompt) or not_defined\n            matching = [value for value in values if value.upper() == input_value]\n        vector.append(metric + ":" + matching[0])\n')], "silent"),
 ]
